@@ -2,12 +2,13 @@
 use crate::engine::Outcome;
 use serde_json::Value;
 
-pub const ENGINES: &[&str] = &["C13", "C16", "C12"];
+pub const ENGINES: &[&str] = &["C13", "C16", "C12", "C11"];
 
 pub fn cases(engine: &str, run_seed: u64, tier: &str, scratch: &str) -> Vec<Value> {
     match engine {
         "C13" => crate::c13::cases(run_seed, tier, scratch),
         "C12" => crate::c12::cases(run_seed, tier, scratch),
+        "C11" => crate::c11::cases(run_seed, tier, scratch),
         #[cfg(umya_verif_sched)]
         "C16" => crate::c16::cases(run_seed, tier, scratch),
         _ => Vec::new(),
@@ -18,6 +19,7 @@ pub fn execute(case: &Value, scratch: &str) -> Outcome {
     match case["engine"].as_str().unwrap_or("") {
         "C13" => crate::c13::execute(case, scratch),
         "C12" => crate::c12::execute(case, scratch),
+        "C11" => crate::c11::execute(case, scratch),
         #[cfg(umya_verif_sched)]
         "C16" => crate::c16::execute(case, scratch),
         e => Outcome { harness_error: Some(format!("unknown engine {:?}", e)), ..Default::default() },
@@ -29,6 +31,7 @@ pub fn shrink_keys(engine: &str) -> &'static [&'static str] {
     match engine {
         "C13" => &["faults", "ops"],
         "C12" => &["steps"],
+        "C11" => &["events"],
         "C16" => &["clone_ops", "base_ops", "savers"],
         _ => &["ops"],
     }
